@@ -33,6 +33,13 @@ Sub-checks (case kinds):
           another parser, or in another thread) run between two uses of the objects it holds; compared with an
           independent bottom-up reference in which no evaluation is nested in another one, and every formula with
           the Lean evaluator (`c04.batch`) on the reference values
+  handed  (e) = (a)+(c) what the host's callbacks are HANDED: two or three formulas over one small set of coordinates of
+          the case's own, every reference spelled anew ($ marks, letter case, corner order), evaluated on distinct
+          parsers one after the other, nested in one another's callbacks (to depth 2) and in threads; every
+          evaluation's record and the sequence of things its callbacks received (label, $ marks and coordinates of the
+          Cell objects of cell and range events, the arguments of function events) against the same formula ALONE on a
+          fresh parser in a fresh interpreter process that evaluates nothing else; one formula per case also against
+          the Lean evaluator (`eval`: record and event sequence)
 """
 import itertools
 import json
@@ -57,7 +64,8 @@ FUNCTIONS = ['hotxlfp.grammarparser.parser:Parser.__init__', 'hotxlfp.grammarpar
              'hotxlfp.parser:Parser.set_function', 'hotxlfp.tinyemitter:Emitter.__init__',
              'hotxlfp.tinyemitter:Emitter.on', 'hotxlfp.tinyemitter:Emitter.emit',
              'ply.yacc:LRParser.parse', 'ply.yacc:LRParser.parseopt_notrack', 'ply.lex:Lexer.input',
-             'ply.lex:Lexer.token', 'ply.lex:Lexer.clone', 'ply.lex:lex']
+             'ply.lex:Lexer.token', 'ply.lex:Lexer.clone', 'ply.lex:lex',
+             'hotxlfp.helper.cell:extract_label', 'hotxlfp.helper.cell:to_label']
 RULE = ('(a) nest: all ordered pairs (outer, inner) of a seeded pool of formulas: of the 41 hand-written ones (CB '
         'calls, cell / range '
         'references, arrays, strings, syntax errors, illegal characters, unknown names, error literals, raising host '
@@ -219,16 +227,49 @@ RULE = ('(a) nest: all ordered pairs (outer, inner) of a seeded pool of formulas
         'inside the running sheet and the one alone (floats: 8 ulps or 1e-9 x max(1,|v|); model answers without opinion skipped; '
         'excepted: formulas with & beside another operator / function and formulas that look up text other than ab / xy / empty / '
         'blank / filled). 4 fixed witness sheets (regression cases) are always run. '
+        '(e) handed: 3 fixed witnesses (HAND_CORPUS) + 100 x scale (thorough 600 x scale) seeded cases, generated LAST (the seeded streams '
+        'of the kinds above are as they were) and run last. A case = 2 (30%) or 3 formulas over coordinates of its own: 2-4 points of a 4 x 4 '
+        'block whose corner is seeded in rows 1..6000 x columns A..AAZ, i.e. within A1..ABC6003 (so that two cases, and the other kinds, which stay within A1..Z9, do '
+        'not meet on a coordinate but by accident), 1-3 ranges between those points (a point with itself included: one-cell ranges); each formula '
+        'one of 16 templates (SUM / COUNT / MAX - MIN / IF / CB over a range, a cell, both, two ranges, two cells, the variable hv, & and + '
+        'of cells) whose range slots take, with probability 0.6, a range the first formula used; EVERY occurrence of a reference is spelled '
+        'anew: each corner with one of the four $ forms (A1, $A$1, A$1, $A1: equally likely), each letter lower case with probability 0.3, '
+        'a range in one of the four corner orders (as written, swapped, the two mixed ones). how = label (60%) | coords: the host answers a '
+        'cell / range event with numbers computed from the LABEL TEXT of the Cell objects it is handed (so that $A$1 and A1 are different '
+        'data, as for a host that keeps its blocks under the reference text) or from their coordinates, plus the parser\'s offset (X 0, Y '
+        '1000, Z 2000, a parser constructed on the spot 3000); it reads the objects after any interposed evaluation has run. parsers = long '
+        '(60%: X, Y, Z live for the whole process and serve every such case) | fresh (constructed for the case). Runs of a case (hand_plans): '
+        'seq = f0 on X, f1 on Y, f2 on Z, f0 on X, f1 on Y one after the other; the first three again, each in a thread of its own started '
+        'and joined in turn; nest = f1 on Y and, at EVERY callback position k of it (k-th callback of any sort: CB call, callVariable / '
+        'callCellValue / callRangeValue / callFunction listener, counted in f1\'s outcome alone), before the host answers, f0 evaluated '
+        'completely inside the callback on a seeded one of X / Y itself / a parser constructed there (thorough: on each), and for one seeded k '
+        '(thorough: every k) once more with f2 evaluated at a seeded callback of f0 on a seeded one of Z / f0\'s parser / a new one; thread = '
+        'the same with f0 evaluated in ANOTHER THREAD on X or a new parser while the thread of f1 waits inside its callback (quick: two seeded '
+        'positions k when there are more than two; thorough: all, on both); free = f0 on X | f1 on Y | f2 on Z in threads released together by '
+        'a barrier, 3 (thorough 8) evaluations each. About 9 runs and 30 evaluations per case quick. Oracle, for EVERY evaluation of every run: '
+        'its record (type and repr) and the sequence of what its callbacks were handed - [cell, label, (row index, row label, row $), (column '
+        'index, column label, column $)], [range, the same for both Cell objects], [fn, name, arguments], [var, name], [cb, arguments] - equal '
+        'those of the same formula ALONE under the same host on a fresh parser with the same offset: hand_refs, one forked child process per '
+        '(formula, offset, how), forked from a server process that imported the library (common.load_repo), constructed one parser it never '
+        'uses and evaluated nothing, so that nothing any evaluation of this run left behind in the process can reach the yardstick; the Cell '
+        'objects a callback holds read the same after the interposed evaluation as before; as many evaluations ran as planned; no callback '
+        'fires outside an evaluation of its thread or during an evaluation on another parser. Model (eval; every case): ONE formula of the '
+        'case (seeded which) on the Lean evaluator, cells and ranges bound to what the host answers for the labels the formula is handed alone, '
+        'CB as (first), hv as variable: the model\'s record and its event sequence (labels, $ marks, indices, function arguments; the cb '
+        'entries have no counterpart and are left out) against those observed in the first run of that formula on its parser and those of '
+        'the reference process. shrink keeps the first failing run (`only`). '
         'search (proof or correspondence broke, no failing input yet): the whole generation again at scale 3, oracle only, until '
         'the first failure. Records are compared exactly (type and repr), only the sheet model comparison has a tolerance. '
         'Time limits are wall-clock (time.time): 180 s per sched case, 120 s stress, 120 s per cold process, '
-        '60 s per other-thread sheet evaluation; exceeded = harness error (exit 2), never a verdict (the 60 s waits of a '
+        '60 s per other-thread sheet evaluation, 60 s per thread of a handed run, 30 s per reference process (a reference that crashes or '
+        'does not answer is a harness error too); exceeded = harness error (exit 2), never a verdict (the 60 s waits of a '
         'linesched run are plain Event / join time-outs: a held thread is released after them and no error is raised). '
-        'Non-trivial = nest / sheet: a nested (or other-thread) evaluation actually ran; sched: the effective order switches '
+        'Non-trivial = nest / sheet: a nested (or other-thread) evaluation actually ran; handed: a run had evaluations on two parsers or in two threads; sched: the effective order switches '
         'threads at least twice; bind: the binding is live on P (P answers differently or its listener was called), globals: at least one snapshot '
         'was taken during an evaluation; stress, cold, linesched: '
         'always. Bulk counting (weight): a nest / sheet case counts every evaluation (sheet: reference runs included), every run '
-        'with nesting and every model comparison it made; stress counts its evaluations and constructed parsers; linesched '
+        'with nesting and every model comparison it made; a handed case counts every evaluation, its reference processes and every run '
+        'that had evaluations on two parsers or in two threads; stress counts its evaluations and constructed parsers; linesched '
         'counts 2 evaluations per boundary run + 3 and every boundary run but one as non-trivial input.')
 TRUSTED = ['granularity: the controlled scheduler and the Lean model interleave at lexer operations (Lexer.input / Lexer.token); '
            'interleavings inside these methods (bytecode level) are exercised only by the free-running stress and '
@@ -284,7 +325,24 @@ TRUSTED = ['granularity: the controlled scheduler and the Lean model interleave 
            'is a regular expression over texts its own generator wrote; a lookup the text does not announce aborts the run '
            'as a harness error',
            'sheet cases with another thread: one forced interleaving per hold point (thread 1 up to the hold point, thread 2 '
-           'completely, thread 1 to the end); finer interleavings of such hosts are not enumerated']
+           'completely, thread 1 to the end); finer interleavings of such hosts are not enumerated',
+           'handed cases, the yardstick: "alone" is taken OUTSIDE the harness process - a server process (python -c, the source of the '
+           'host functions canon / canon_rec / snap / hh_* / HandLog sent along by inspect.getsource, so both sides run the same host '
+           'code) loads the tree under test through common.load_repo (ply never writes its tables into the tree), constructs one parser '
+           'it never uses (so that ply\'s tables are built once) and then only forks: every reference evaluation is the first and only '
+           'evaluation of its child process (os.fork; the children run eight at a time on three identical servers, 30 s alarm each). '
+           'Trusted: fork gives the child the state of a process that has evaluated nothing; constructing that one parser leaves '
+           'nothing behind that an evaluation on another parser could read; the JSON pipe carries the answers unchanged',
+           'handed cases, the host: its answers are pure functions of what it is handed (label text or coordinates of the Cell objects, '
+           'read after any interposed evaluation) and of the parser\'s offset, so an interposed evaluation changes nothing the host '
+           'itself contributes; ranges are answered with at most 6 x 6 values; CB returns its first argument',
+           'handed cases, threads: the other-thread runs are ONE forced interleaving per callback position (thread 1 up to its '
+           'callback, thread 2 completely, thread 1 to the end); the free-running threads are unscheduled (3 or 8 evaluations each) '
+           'and may or may not overlap; the outcome alone is deterministic, so every interleaving is judged by the same yardstick',
+           'handed cases, model: the environment of the Lean evaluator (cell and range values) is computed by the harness from the labels '
+           'the REFERENCE process was handed; a label the model computes differently finds no entry (blank) and shows as a disagreement. '
+           'One formula per case is compared; the interposition itself (nesting, threads) is outside the model, which sees one '
+           'evaluation alone']
 ASSUMPTIONS = ['"outcome" = the record returned by Parser.parse, compared exactly (type and repr of result and '
                'error); in nest and '
                'sheet cases the sequence of callback events of an evaluation is compared too '
@@ -338,7 +396,18 @@ ASSUMPTIONS = ['"outcome" = the record returned by Parser.parse, compared exactl
                'exceeds 4000 evaluations or walks more than 200000 range cells counts as a violation (run-away), not '
                'as a harness error',
                'the reference parser of a sheet may serve several formulas one after the other (sequential reuse of a parser '
-               'is not this property\'s subject); every 5th sheet uses a fresh parser per formula']
+               'is not this property\'s subject); every 5th sheet uses a fresh parser per formula',
+               'handed cases: "the outcome it yields when run alone" includes what the evaluation hands to its host - the label, the '
+               '$ marks and the coordinates of the Cell objects of cell and range events, the arguments of function events and of '
+               'custom functions, in their order: a host resolves its data by them, so an evaluation that is handed another '
+               'spelling of a reference ($A$1 for A1) because ANOTHER evaluation - on another parser, in another thread, nested in '
+               'it, or earlier in the process - wrote it that way has been influenced by that evaluation, whether or not this host\'s '
+               'answer (and so the record) changes',
+               'handed cases: "alone" = the same formula under the same host on a fresh parser in a process in which nothing else has '
+               'been evaluated; evaluations that ran EARLIER in the process on another parser count as "other evaluations" just as '
+               'nested and concurrent ones do (the statement\'s "never influence each other"); the last two evaluations of the '
+               'sequential run repeat f0 on X and f1 on Y, i.e. a parser re-evaluating its own formula after other parsers evaluated '
+               'other spellings in between - judged against the same yardstick, since the formula is the same']
 EXHAUSTIVE = {'quick': False, 'thorough': False}
 
 KINDS = ['fn', 'var', 'cell', 'range', 'callfn']
@@ -1853,6 +1922,663 @@ SHEET_CORPUS = [
 ]
 
 
+# =========================================================================== (e) what the host's listeners are HANDED
+#
+# Two or three formulas over ONE small set of coordinates, each spelling the references its own way ($ marks, letter
+# case, corner order); they are evaluated on distinct parsers one after the other, nested in one another's callbacks and
+# in threads.  Every evaluation's record and the sequence of things its callbacks were handed (label, $ marks and
+# coordinates of the Cell objects, arguments of function events) must be those of the same formula ALONE: on a fresh
+# parser in a fresh interpreter process that never evaluated anything else (the reference server below).
+#
+# The functions from `hh_text_val` to `hh_alone` are the host itself; their SOURCE is sent to the reference process, so
+# they use nothing of this module but `canon`, `canon_rec`, `snap` (sent along) and the standard library.
+
+def hh_text_val(text, off):
+    """a number that depends on every character of a reference text (so that '$A$1' and 'A1' are different data)"""
+    n = 0
+    for ch in text:
+        n = (n * 31 + ord(ch)) % 99991
+    return n % 997 + 1 + off
+
+
+def hh_cell_value(how, s, off):
+    """the host's value of a cell from what it can read off the Cell object (s = snap): by its label text or by coordinates"""
+    if how == 'coords':
+        return (s[1][0] * 7 + s[2][0] * 3) % 101 + 1 + off
+    return hh_text_val(s[0], off)
+
+
+def hh_range_value(how, s, e, off):
+    r1, c1, r2, c2 = s[1][0], s[2][0], e[1][0], e[2][0]
+    rows = []
+    for r in range(r1, min(r2, r1 + 5) + 1):
+        row = []
+        for c in range(c1, min(c2, c1 + 5) + 1):
+            if how == 'coords':
+                row.append((r * 7 + c * 3) % 101 + 1 + off)
+            else:
+                row.append(hh_text_val('%s:%s/%d/%d' % (s[0], e[0], r - r1, c - c1), off))
+        rows.append(row)
+    return rows
+
+
+def hh_equip(p, name, off, get):
+    """the bindings of one parser of the host; `get()` = the host object in charge now (attributes `how`, `on_event`).
+    Every callback first reports what it was handed, then answers from what it reads off the objects THEN"""
+    p.set_variable('hv', 5 + off)
+
+    def cb(*a):
+        h = get()
+        if h is not None:
+            h.on_event(name, ['cb', canon(list(a))], [], list(a))
+        return a[0] if a else None
+    p.set_function('CB', cb)
+
+    def on_cell(cell, setter):
+        h = get()
+        if h is None:
+            return
+        h.on_event(name, ['cell', snap(cell)], [cell], None)
+        setter(hh_cell_value(h.how, snap(cell), off))
+    p.on('callCellValue', on_cell)
+
+    def on_range(start, end, setter):
+        h = get()
+        if h is None:
+            return
+        h.on_event(name, ['range', snap(start), snap(end)], [start, end], None)
+        setter(hh_range_value(h.how, snap(start), snap(end), off))
+    p.on('callRangeValue', on_range)
+
+    def on_fn(fname, args, setter):
+        h = get()
+        if h is not None:
+            h.on_event(name, ['fn', fname, canon(list(args))], [], list(args))
+    p.on('callFunction', on_fn)
+
+    def on_var(vname, setter):
+        h = get()
+        if h is not None:
+            h.on_event(name, ['var', vname], [], None)
+    p.on('callVariable', on_var)
+    return p
+
+
+class HandLog(object):
+    """the host of the reference run: it only writes down what it is handed"""
+
+    def __init__(self, how):
+        self.how = how
+        self.log = []
+
+    def on_event(self, name, ev, objs, raw):
+        self.log.append(ev)
+
+
+def hh_alone(job):
+    """ONE formula on a fresh parser; in the reference process this is the first and only evaluation of its interpreter"""
+    import hotxlfp
+    host = HandLog(job['how'])
+    p = hh_equip(hotxlfp.Parser(), 'ref', job['off'], lambda: host)
+    rec = p.parse(job['f'])
+    return {'rec': canon_rec(rec), 'events': host.log}
+
+
+HAND_SERVER_MAIN = r'''
+def _hand_serve():
+    """jobs per line; every job in a forked child of THIS process, which imported the library and did nothing else"""
+    import os, signal, traceback
+    import hotxlfp
+    def child(job, w):
+        try:
+            signal.alarm(30)
+            try:
+                out = json.dumps(hh_alone(job))
+            except BaseException:
+                out = json.dumps({'crash': traceback.format_exc()[-600:]})
+            os.write(w, out.encode('utf-8'))
+        finally:
+            os._exit(0)
+    while True:
+        line = sys.stdin.readline()
+        if not line:
+            break
+        jobs = json.loads(line)
+        results = [None] * len(jobs)
+        live = []
+        nxt = 0
+        while nxt < len(jobs) or live:
+            while nxt < len(jobs) and len(live) < 8:
+                r, w = os.pipe()
+                pid = os.fork()
+                if pid == 0:
+                    os.close(r)
+                    child(jobs[nxt], w)
+                os.close(w)
+                live.append((nxt, pid, r))
+                nxt += 1
+            i, pid, r = live.pop(0)
+            data = b''
+            while True:
+                chunk = os.read(r, 65536)
+                if not chunk:
+                    break
+                data += chunk
+            os.close(r)
+            os.waitpid(pid, 0)
+            try:
+                results[i] = json.loads(data.decode('utf-8'))
+            except ValueError:
+                results[i] = {'crash': 'the reference process of %r gave no answer (killed after 30 s?)' % (jobs[i],)}
+        sys.stdout.write('REF ' + json.dumps(results) + '\n')
+        sys.stdout.flush()
+
+_hand_serve()
+'''
+
+HAND_OFF = {'X': 0, 'Y': 1000, 'Z': 2000, 'N': 3000}
+HAND_SERVERS = 3
+_hand_server = [None] * HAND_SERVERS
+_hand_refs = {}
+_hand_pending = []
+
+
+def hand_off(pname):
+    return HAND_OFF['N' if pname.startswith('N') else pname]
+
+
+def _hand_server_start():
+    import atexit
+    import inspect
+    import subprocess
+    # the server loads the library the way the harness does (common.load_repo: the tree under test, ply never writing its
+    # tables into it) and constructs ONE parser it never uses, so that ply's tables are built once and not in every child
+    src = ('import sys, json\nsys.dont_write_bytecode = True\nsys.path.insert(0, sys.argv[2])\n'
+           'from harness import common as _common\n_common.load_repo()\nimport hotxlfp\nhotxlfp.Parser()\n')
+    for fn in (canon, canon_rec, snap, hh_text_val, hh_cell_value, hh_range_value, hh_equip, HandLog, hh_alone):
+        src += '\n\n' + inspect.getsource(fn)
+    src += HAND_SERVER_MAIN
+    p = subprocess.Popen([sys.executable, '-c', src, common.REPO, common.VERIF], stdin=subprocess.PIPE, stdout=subprocess.PIPE,
+                         stderr=subprocess.PIPE, env=dict(os.environ))
+
+    def stop():
+        try:
+            p.stdin.close()
+            p.wait(5)
+        except Exception:
+            try:
+                p.kill()
+            except Exception:
+                pass
+    atexit.register(stop)
+    return p
+
+
+def hand_refs(jobs):
+    """{(formula, off, how): what the formula yields and what its callbacks are handed ALONE}: every job on a fresh parser in a
+    fresh interpreter process of its own (forked from a process that imported hotxlfp and evaluated nothing); jobs registered by
+    cases() but not asked for yet go along in the same batch (the children run eight at a time)"""
+    todo = []
+    for j in list(jobs) + _hand_pending:
+        if j not in _hand_refs and j not in todo:
+            todo.append(j)
+    del _hand_pending[:]
+    if todo:
+        common.load_repo()
+        # the batch is dealt out to a few identical servers working side by side (a small batch goes to the first one)
+        n = HAND_SERVERS if len(todo) >= 24 else 1
+        shares = [todo[i::n] for i in range(n)]
+        for i in range(n):
+            if _hand_server[i] is None or _hand_server[i].poll() is not None:
+                _hand_server[i] = _hand_server_start()
+        lines = []
+        for i in range(n):
+            p = _hand_server[i]
+            try:
+                p.stdin.write((json.dumps([{'f': f, 'off': off, 'how': how} for f, off, how in shares[i]]) + '\n').encode('utf-8'))
+                p.stdin.flush()
+            except (IOError, OSError) as e:
+                lines.append('pipe: %r' % (e,))
+        for i in range(n):
+            p = _hand_server[i]
+            try:
+                line = p.stdout.readline().decode('utf-8', 'replace')
+            except (IOError, OSError) as e:
+                line = 'pipe: %r' % (e,)
+            if not line.startswith('REF '):
+                err = ''
+                try:
+                    p.kill()
+                    err = p.stderr.read().decode('utf-8', 'replace')[-600:]
+                except Exception:
+                    pass
+                _hand_server[i] = None
+                raise RuntimeError('the C03 reference server failed: %r %s' % (line[:200], err))
+            for j, res in zip(shares[i], json.loads(line[4:])):
+                if not isinstance(res, dict) or 'crash' in res:
+                    raise RuntimeError('C03 reference run of %r failed: %s' % (j, res))
+                _hand_refs[j] = res
+    return {j: _hand_refs[j] for j in jobs}
+
+
+def hand_targets(c):
+    """on which parsers the interposed evaluations of a case run (seeded; thorough: the inner one on each in turn)"""
+    rng = _random.Random(c['seed'] ^ 0x5bd1)
+    nest1 = ['X', 'Y', 'N'] if c.get('thorough') else [rng.choice(['X', 'Y', 'N'])]
+    thread1 = ['X', 'N'] if c.get('thorough') else [rng.choice(['X', 'N'])]
+    return {'nest1': nest1, 'thread1': thread1, 'then': rng.choice(['Z', 'same', 'N'])}
+
+
+def hand_jobs(c):
+    """the (formula, profile) pairs whose outcome alone the case needs"""
+    fs, how = c['formulas'], c['how']
+    t = hand_targets(c)
+    jobs = [(fs[0], hand_off('X'), how), (fs[1], hand_off('Y'), how)]
+    for n in t['nest1'] + t['thread1']:
+        jobs.append((fs[0], hand_off(n), how))
+    if len(fs) > 2:
+        jobs.append((fs[2], hand_off('Z'), how))
+        for n in t['nest1'] + t['thread1']:
+            jobs.append((fs[2], hand_off(n if t['then'] == 'same' else t['then']), how))
+    out = []
+    for j in jobs:
+        if j not in out:
+            out.append(j)
+    return out
+
+
+def hand_plans(c, refs):
+    """every run of a handed case (JSON-able); a trigger = at the pos-th callback of an evaluation, before the host answers,
+    formula number f is evaluated completely on parser `on`, nested in the callback or in ANOTHER THREAD while this one waits"""
+    if c.get('only') is not None:
+        return [c['only']]
+    fs, how = c['formulas'], c['how']
+    rng = _random.Random(c['seed'])
+    t = hand_targets(c)
+    third = len(fs) > 2
+    plans = []
+    order = [['X', 0], ['Y', 1]] + ([['Z', 2]] if third else []) + [['X', 0], ['Y', 1]]
+    plans.append({'mode': 'seq', 'thread': False, 'steps': order})
+    plans.append({'mode': 'seq', 'thread': True, 'steps': order[:3]})
+    n1 = len(refs[(fs[1], hand_off('Y'), how)]['events'])
+
+    def then_for(on, where):
+        if not third:
+            return None
+        n0 = len(refs[(fs[0], hand_off(on), how)]['events'])
+        if not n0:
+            return None
+        return {'pos': rng.randrange(n0), 'where': 'nest', 'on': t['then'], 'f': 2}
+    for where, targets in (('nest', t['nest1']), ('thread', t['thread1'])):
+        for on in targets:
+            deep = rng.randrange(n1) if n1 else None
+            ks = list(range(n1))
+            if where == 'thread' and not c.get('thorough') and n1 > 2:
+                ks = sorted(rng.sample(ks, 2))          # quick: two seeded positions for the other thread
+                deep = rng.choice(ks)
+            for k in ks:
+                plans.append({'mode': 'nest', 'outer': ['Y', 1], 'trigger': {'pos': k, 'where': where, 'on': on, 'f': 0}})
+                if c.get('thorough') or k == deep:
+                    th = then_for(on, where)
+                    if th is not None:
+                        plans.append({'mode': 'nest', 'outer': ['Y', 1],
+                                      'trigger': {'pos': k, 'where': where, 'on': on, 'f': 0, 'then': th}})
+    plans.append({'mode': 'free', 'threads': [['X', 0], ['Y', 1]] + ([['Z', 2]] if third else []), 'reps': 8 if c.get('thorough') else 3})
+    return plans
+
+
+_hand_rig = [None]
+_hand_long = {}
+
+
+def _hand_long_parser(name):
+    """the long-lived parsers of the handed cases: they serve every such case of the process"""
+    if name not in _hand_long:
+        import hotxlfp
+        _hand_long[name] = hh_equip(hotxlfp.Parser(), name, hand_off(name), lambda: _hand_rig[0])
+    return _hand_long[name]
+
+
+class HandRig(object):
+    """one run of a handed case on the harness's side: evaluation frames per thread, the interposed evaluations"""
+
+    def __init__(self, c, fresh=None):
+        self.c = c
+        self.how = c['how']
+        self.fresh = fresh          # parsers constructed for this case (None: the long-lived ones serve)
+        self.frames = []
+        self.stacks = {}
+        self.anomalies = []
+        self.new = 0
+        self.newp = {}
+        self.lock = threading.Lock()
+
+    def stack(self):
+        return self.stacks.setdefault(threading.get_ident(), [])
+
+    def parser(self, name):
+        import hotxlfp
+        if name == 'N':
+            with self.lock:
+                self.new += 1
+                name = 'N%d' % self.new
+            p = hh_equip(hotxlfp.Parser(), name, hand_off(name), lambda: _hand_rig[0])     # constructed while evaluations are in progress
+            self.newp[name] = p
+            return name, p
+        if name in self.newp:
+            return name, self.newp[name]
+        if self.fresh is not None:
+            if name not in self.fresh:
+                self.fresh[name] = hh_equip(hotxlfp.Parser(), name, hand_off(name), lambda: _hand_rig[0])
+            return name, self.fresh[name]
+        return name, _hand_long_parser(name)
+
+    def evaluate(self, pname, fi, trigger, why):
+        name, p = self.parser(pname)
+        st = self.stack()
+        fr = {'on': name, 'f': self.c['formulas'][fi], 'events': [], 'raw': [], 'rec': None, 'trigger': trigger, 'fired': False,
+              'why': why, 'depth': len(st), 'thread': threading.current_thread() is not threading.main_thread()}
+        self.frames.append(fr)
+        st.append(fr)
+        try:
+            fr['rec'] = p.parse(fr['f'])
+        finally:
+            st.pop()
+        return fr
+
+    def in_thread(self, fn):
+        err = []
+
+        def work():
+            try:
+                fn()
+            except BaseException as e:
+                err.append(e)
+        th = threading.Thread(target=work, daemon=True)
+        th.start()
+        th.join(60)
+        if th.is_alive():
+            raise HarnessTimeout('a thread of a handed case did not finish in 60 s')
+        if err:
+            raise err[0]
+
+    def on_event(self, name, ev, objs, raw):
+        st = self.stack()
+        if not st:
+            self.anomalies.append('a callback of parser %s (%s) fired outside any evaluation of its thread' % (name, ev[0]))
+            return
+        fr = st[-1]
+        if fr['on'] != name:
+            self.anomalies.append('a callback of parser %s (%s) fired during an evaluation on parser %s' % (name, ev[0], fr['on']))
+            return
+        k = len(fr['events'])
+        fr['events'].append(ev)
+        fr['raw'].append(raw)
+        tr = fr['trigger']
+        if tr is None or fr['fired'] or tr['pos'] != k:
+            return
+        fr['fired'] = True
+        hold = [snap(o) for o in objs]
+        on = name if tr['on'] == 'same' else tr['on']
+        if tr['where'] == 'thread':
+            self.in_thread(lambda: self.evaluate(on, tr['f'], tr.get('then'), 'in another thread'))
+        else:
+            self.evaluate(on, tr['f'], tr.get('then'), 'nested')
+        now = [snap(o) for o in objs]
+        if now != hold and not fr.get('held'):
+            fr['held'] = ('the Cell objects handed to this callback read %r when it received them and %r after the other '
+                          'evaluation ran' % (hold, now))
+
+    def run(self, plan):
+        mode = plan['mode']
+        if mode == 'seq':
+            for pname, fi in plan['steps']:
+                if plan['thread']:
+                    self.in_thread(lambda: self.evaluate(pname, fi, None, 'in a thread of its own'))
+                else:
+                    self.evaluate(pname, fi, None, None)
+        elif mode == 'nest':
+            self.evaluate(plan['outer'][0], plan['outer'][1], plan['trigger'], None)
+        else:
+            gate = threading.Barrier(len(plan['threads']))
+            err = []
+
+            def work(pname, fi):
+                try:
+                    gate.wait(30)
+                    for _ in range(plan['reps']):
+                        self.evaluate(pname, fi, None, 'free-running thread')
+                except BaseException as e:
+                    err.append(e)
+            ths = [threading.Thread(target=work, args=(pn, fi), daemon=True) for pn, fi in plan['threads']]
+            for th in ths:
+                th.start()
+            for th in ths:
+                th.join(60)
+            if any(th.is_alive() for th in ths):
+                raise HarnessTimeout('the free-running threads of a handed case did not finish in 60 s')
+            if err:
+                raise err[0]
+
+
+def hand_expected(plan):
+    """how many evaluations a plan starts"""
+    if plan['mode'] == 'seq':
+        return len(plan['steps'])
+    if plan['mode'] == 'free':
+        return len(plan['threads']) * plan['reps']
+    n, tr = 1, plan['trigger']
+    while tr is not None:
+        n, tr = n + 1, tr.get('then')
+    return n
+
+
+def describe_hand(c, plan):
+    fs = c['formulas']
+
+    def trig(tr):
+        s = 'at its %d. callback %r is evaluated %s on %s' % (
+            tr['pos'] + 1, fs[tr['f']], 'in ANOTHER THREAD (this one waits)' if tr['where'] == 'thread' else 'inside the callback',
+            {'same': 'the SAME parser', 'N': 'a parser constructed there'}.get(tr['on'], tr['on']))
+        if tr.get('then'):
+            s += '; inside that evaluation, ' + trig(tr['then'])
+        return s
+    head = 'host answering by %s, %s parsers X, Y, Z' % (
+        'the label text it is handed' if c['how'] == 'label' else 'the coordinates it is handed',
+        'fresh' if c.get('parsers') == 'fresh' else 'long-lived')
+    if plan['mode'] == 'seq':
+        return '%s; one after the other%s: %s' % (head, ', each in a thread of its own' if plan['thread'] else '',
+                                                   ', then '.join('%r on %s' % (fs[fi], pn) for pn, fi in plan['steps']))
+    if plan['mode'] == 'free':
+        return '%s; threads released together, each %d times: %s' % (
+            head, plan['reps'], ' | '.join('%r on %s' % (fs[fi], pn) for pn, fi in plan['threads']))
+    return '%s; %r on %s; %s' % (head, fs[plan['outer'][1]], plan['outer'][0], trig(plan['trigger']))
+
+
+HAND_ALONE = 'alone (on a fresh parser, in a fresh interpreter process that evaluates nothing else)'
+
+
+def judge_hand(c, plan, rig, refs):
+    """the statement on one run: every evaluation yields, and hands to its host, what it does alone"""
+    for fr in rig.frames:
+        ref = refs[(fr['f'], hand_off(fr['on']), c['how'])]
+        who = 'the evaluation of %r on parser %s%s' % (fr['f'], fr['on'], ' (%s)' % fr['why'] if fr['why'] else '')
+        if fr['events'] != ref['events']:
+            d = 0
+            while d < min(len(fr['events']), len(ref['events'])) and fr['events'][d] == ref['events'][d]:
+                d += 1
+            return ('%s: its %d. callback was handed %r, %s it is handed %r (all it was handed: %r; alone: %r)' % (
+                who, d + 1, fr['events'][d] if d < len(fr['events']) else 'nothing (no such callback)', HAND_ALONE,
+                ref['events'][d] if d < len(ref['events']) else 'nothing (no such callback)', fr['events'], ref['events']))
+        if fr['rec'] is not None and canon_rec(fr['rec']) != ref['rec']:
+            return '%s gives %r, %s it gives %r' % (who, canon_rec(fr['rec']), HAND_ALONE, ref['rec'])
+    for fr in rig.frames:
+        if fr.get('held'):
+            return 'during the evaluation of %r on parser %s: %s' % (fr['f'], fr['on'], fr['held'])
+    if rig.anomalies:
+        return rig.anomalies[0]
+    if len(rig.frames) != hand_expected(plan):
+        return '%d evaluations were planned, %d ran' % (hand_expected(plan), len(rig.frames))
+    return None
+
+
+def run_handed(c):
+    common.load_repo()
+    refs = hand_refs(hand_jobs(c))
+    runs = []
+    observed = {}
+    fresh = {} if c.get('parsers') == 'fresh' else None
+    for plan in hand_plans(c, refs):
+        rig = HandRig(c, fresh)
+        _hand_rig[0] = rig
+        try:
+            rig.run(plan)
+        finally:
+            _hand_rig[0] = None
+        for fr in rig.frames:
+            if fr['rec'] is not None:
+                observed.setdefault((fr['f'], fr['on'][0]), {'rec': fr['rec'], 'events': fr['events'], 'raw': fr['raw']})
+        runs.append({'plan': plan, 'msg': judge_hand(c, plan, rig, refs), 'nframes': len(rig.frames),
+                     'apart': len(set((fr['on'], fr['thread']) for fr in rig.frames)) > 1})
+    # the model's view of ONE of the formulas: the Lean evaluator with the cells / ranges bound to what this host answers
+    # for the labels and coordinates the formula's callbacks are handed ALONE
+    fi = c.get('model', 1) % len(c['formulas'])
+    pname = ['X', 'Y', 'Z'][fi]
+    ref = refs[(c['formulas'][fi], hand_off(pname), c['how'])]
+    cells, ranges = {}, {}
+    for ev in ref['events']:
+        if ev[0] == 'cell':
+            cells[ev[1][0]] = hh_cell_value(c['how'], ev[1], hand_off(pname))
+        elif ev[0] == 'range':
+            ranges[(ev[1][0], ev[2][0])] = hh_range_value(c['how'], ev[1], ev[2], hand_off(pname))
+    env = fx.env_wire(variables={'hv': 5 + hand_off(pname)}, fns={'CB': '(first)'}, cells=cells, ranges=ranges)
+    return {'runs': runs, 'model_f': c['formulas'][fi], 'model_env': env, 'model_ref': ref,
+            'model_obs': observed.get((c['formulas'][fi], pname)), 'refs': len(refs)}
+
+
+def _hand_event_agrees(m, e, raw):
+    """model event (parsed sexp) against what a callback was handed"""
+    def pl(mp, p):
+        try:
+            return isinstance(mp, list) and len(mp) == 3 and int(mp[0]) == p[0] and common.dec_str(mp[1]) == p[1] and (mp[2] == '1') == p[2]
+        except (TypeError, ValueError):
+            return False
+
+    def cell(mm, s):
+        return len(mm) == 3 and common.dec_str(mm[0]) == s[0] and pl(mm[1], s[1]) and pl(mm[2], s[2])
+    if not isinstance(m, list) or not m or m[0] != e[0]:
+        return False
+    if e[0] == 'cell':
+        return len(m) == 4 and cell(m[1:4], e[1])
+    if e[0] == 'range':
+        return len(m) == 7 and cell(m[1:4], e[1]) and cell(m[4:7], e[2])
+    if e[0] == 'var':
+        return len(m) == 2 and common.dec_str(m[1]) == e[1]
+    if e[0] == 'fn':
+        if not (len(m) == 3 and common.dec_str(m[1]) == e[1] and isinstance(m[2], list)):
+            return False
+        if raw is None:
+            return True
+        return len(m[2]) == len(raw) and all(fx.value_matches(mm, vv, rel=1e-9) is not False for mm, vv in zip(m[2], raw))
+    return False
+
+
+def agree_hand(c, ans, model_ans):
+    m = fx.parse_sexp(model_ans)
+    if not (isinstance(m, list) and len(m) == 2 and isinstance(m[1], list)):
+        return False
+    mrec, mlog = m
+    opinion = not (isinstance(mrec, list) and len(mrec) == 3 and isinstance(mrec[1], list) and mrec[1] and mrec[1][0] == 'o')
+    for what in (ans['model_obs'], ans['model_ref']):
+        if what is None:
+            continue
+        events = [(e, r) for e, r in zip(what['events'], what.get('raw') or [None] * len(what['events'])) if e[0] != 'cb']
+        if (len(mlog) != len(events)) if opinion else (len(mlog) > len(events)):
+            return False
+        if not all(_hand_event_agrees(a, e, r) for a, (e, r) in zip(mlog, events)):
+            return False
+        if isinstance(what['rec'], dict):
+            if fx.record_matches(mrec, what['rec'], rel=1e-9) is False:
+                return False
+    return True
+
+
+# ---- seeded cases
+
+HAND_TEMPLATES = ['SUM(%R)', 'SUM(%R)+%C', 'CB(%R)', 'CB(%C)+SUM(%R)', '%C*2', 'SUM(%R,%C)', 'IF(%C>0,SUM(%R),0)', 'COUNT(%R)&"|"',
+                  'MAX(%R)-MIN(%R)', 'CB(1)+SUM(%R)', 'hv+%C', '%C&"/"&%C', 'SUM(%R)+SUM(%R)', 'CB(%C,%R)', 'SUM(%R)*CB(2)', '%C+%C']
+
+
+def hand_spell(rng, r, c):
+    col = ''.join(ch.lower() if rng.random() < 0.3 else ch for ch in col_label(c))
+    return rng.choice(['%s%d', '$%s$%d', '%s$%d', '$%s%d']) % (col, r + 1)
+
+
+def hand_spell_range(rng, a, b):
+    (r1, c1), (r2, c2) = a, b
+    form = rng.randrange(4)
+    if form == 1:
+        a, b = b, a
+    elif form == 2:
+        a, b = (r1, c2), (r2, c1)
+    elif form == 3:
+        a, b = (r2, c1), (r1, c2)
+    return hand_spell(rng, *a) + ':' + hand_spell(rng, *b)
+
+
+def gen_handed(rng, thorough=False):
+    """2-3 formulas over one small set of coordinates of the case's own (a block of at most 4 x 4 cells somewhere in
+    A1..ABC6003), every occurrence of a reference spelled anew"""
+    r0, c0 = rng.randrange(0, 6000), rng.randrange(0, 728)
+    pts = []
+    while len(pts) < rng.randrange(2, 5):
+        p = (r0 + rng.randrange(4), c0 + rng.randrange(4))
+        if p not in pts:
+            pts.append(p)
+    pairs = [(a, b) for a in pts for b in pts]
+    ranges = rng.sample(pairs, min(len(pairs), rng.randrange(1, 4)))
+    formulas = []
+    first_used = []
+    for i in range(3 if rng.random() < 0.7 else 2):
+        t = rng.choice(HAND_TEMPLATES)
+        used = []
+        out = ''
+        j = 0
+        while j < len(t):
+            if t[j] == '%':
+                if t[j + 1] == 'R':
+                    pool = first_used if (first_used and rng.random() < 0.6) else ranges
+                    ref = ('R', rng.choice(pool))
+                    out += hand_spell_range(rng, *ref[1])
+                else:
+                    ref = ('C', rng.choice(pts))
+                    out += hand_spell(rng, *ref[1])
+                used.append(ref)
+                j += 2
+            else:
+                out += t[j]
+                j += 1
+        if i == 0:
+            first_used = [u[1] for u in used if u[0] == 'R']
+        formulas.append(out)
+    c = {'kind': 'handed', 'formulas': formulas, 'how': 'label' if rng.random() < 0.6 else 'coords',
+         'parsers': 'fresh' if rng.random() < 0.4 else 'long', 'seed': rng.randrange(1 << 30), 'model': rng.randrange(3)}
+    if thorough:
+        c['thorough'] = True
+    return c
+
+
+# minimal witnesses of a change this check once missed (regression cases; the generator reaches the class on its own):
+# the same corners spelled with and without $ marks by two evaluations on different parsers
+HAND_CORPUS = [
+    {'kind': 'handed', 'formulas': ['SUM($A$1:$B$2)', 'SUM(A1:B2)', 'CB(1)+SUM(b$2:$a1)'], 'how': 'label', 'parsers': 'fresh', 'seed': 11, 'model': 1},
+    {'kind': 'handed', 'formulas': ['SUM($K$1:$L$2)', 'CB(1)+SUM(K1:L2)', '$L2+K$1'], 'how': 'label', 'parsers': 'long', 'seed': 12, 'model': 1},
+    {'kind': 'handed', 'formulas': ['CB(ab7:$AA$9)', 'SUM(AA9:AB7)+aa$9', 'SUM($AB9:AA$7)'], 'how': 'coords', 'parsers': 'long', 'seed': 13, 'model': 0},
+]
+N_HANDED_QUICK = 100
+N_HANDED_THOROUGH = 600
+
+
 # =========================================================================== the pool of formulas
 
 HAND = ['CB(1)+10', 'CB(CB(2)*3)+CB(4)', 'SUM(CB(1),CB(2),CB(3))*2', 'IF(CB(1)>0,CB("yes"),CB("no"))&"!"',
@@ -2013,6 +2739,14 @@ def cases(rng, ctx):
     # ---- (c) free-running
     out.append({'kind': 'stress', 'threads': 4, 'n': 300 * (3 if thorough else 1), 'seed': rng.randrange(1 << 30),
                 'pool': [f for f in tpool if f]})
+    # ---- (e) what the listeners are handed: the same coordinates under different spellings on two or three parsers
+    # (generated last: the seeded streams of the kinds above are as they were)
+    handed = [json.loads(json.dumps(c)) for c in HAND_CORPUS]
+    for _ in range((N_HANDED_THOROUGH if thorough else N_HANDED_QUICK) * scale):
+        handed.append(gen_handed(rng, thorough))
+    for c in handed:
+        _hand_pending.extend(hand_jobs(c))     # their outcomes alone are fetched in one batch at first need
+    out += handed
     return out
 
 
@@ -2125,6 +2859,8 @@ def _run(c):
             res = run_bind(c)
         elif kind == 'sheet':
             res = run_sheet(c)
+        elif kind == 'handed':
+            res = run_handed(c)
         elif kind == 'sched':
             res = run_sched(c['formulas'], c['schedule'])
         elif kind == 'stress':
@@ -2137,7 +2873,7 @@ def _run(c):
             raise ValueError(kind)
     finally:
         _restore()
-    if kind in ('nest', 'sheet'):
+    if kind in ('nest', 'sheet', 'handed'):
         _impl_cache[k] = res      # computed in the request phase, consumed by impl()
     return res
 
@@ -2250,6 +2986,11 @@ def request(c):
         # bottom-up reference computed (the model has no host that evaluates inside a listener: inner outcomes are data)
         res = _run(c)
         return 'c04.batch ' + ' '.join(enc_str(f) for f in res['formulas']) + ' ' + res['env']
+    if kind == 'handed':
+        # the Lean evaluator on ONE formula of the case (seeded which), cells and ranges bound to what the host answers for
+        # the labels the formula's callbacks are handed alone: its record and its event sequence (labels, $ marks, coordinates)
+        res = _run(c)
+        return 'eval %s %s' % (enc_str(res['model_f']), res['model_env'])
     return None
 
 
@@ -2308,6 +3049,8 @@ def agree(c, impl_ans, model_ans):
                 if rec is not None and fx.record_matches(ans[1], rec, ulps=8, rel=1e-9) is False:
                     return False
         return True
+    if c['kind'] == 'handed':
+        return agree_hand(c, impl_ans, model_ans)
     return True
 
 
@@ -2327,6 +3070,11 @@ def oracle(c, impl_ans):
         for r in impl_ans['runs']:
             if r['msg']:
                 return '%s: %s' % (describe_sheet_run(c, r), r['msg'])
+        return None
+    if kind == 'handed':
+        for r in impl_ans['runs']:
+            if r['msg']:
+                return 'formulas %r; %s: %s' % (c['formulas'], describe_hand(c, r['plan']), r['msg'])
         return None
     if kind == 'sched':
         for i, f in enumerate(c['formulas']):
@@ -2360,6 +3108,8 @@ def nontrivial(c, impl_ans):
         return any(r['nframes'] >= 2 for r in impl_ans['runs'])
     if kind == 'sheet':
         return any(r['nested'] > 0 for r in impl_ans['runs'])
+    if kind == 'handed':
+        return any(r['apart'] for r in impl_ans['runs'])
     if kind == 'sched':
         e = impl_ans['effective']
         return sum(1 for a, b in zip(e, e[1:]) if a != b) >= 2
@@ -2381,6 +3131,9 @@ def weight(c, impl_ans):
         return (impl_ans['evaluations'], 0, 0)
     if c['kind'] == 'linesched':
         return (2 * impl_ans['runs'] + 3, max(0, impl_ans['runs'] - 1), 0)
+    if c['kind'] == 'handed':
+        runs = impl_ans['runs']
+        return (sum(r['nframes'] for r in runs) + impl_ans['refs'], max(0, len([r for r in runs if r['apart']]) - 1), 0)
     if c['kind'] == 'sheet':
         runs = impl_ans['runs']
         return (sum(r['nframes'] for r in runs) + impl_ans['ref_evals'], max(0, len([r for r in runs if r['nested'] > 0]) - 1),
@@ -2393,6 +3146,15 @@ def shrink(c, msg):
     failing one and the cells it can reach"""
     if c['kind'] == 'sheet':
         return shrink_sheet(c, msg)
+    if c['kind'] == 'handed':
+        if c.get('only') is None:
+            res = run_handed(c)
+            for r in res['runs']:
+                if r['msg']:
+                    c2 = dict(c)
+                    c2['only'] = r['plan']
+                    return c2, 'formulas %r; %s: %s' % (c['formulas'], describe_hand(c, r['plan']), r['msg'])
+        return c, msg
     if c['kind'] != 'nest' or c.get('only') is not None:
         return c, msg
     res = _run(c)
